@@ -35,3 +35,41 @@ def stash_apply_after_head_moved_in_hooks_mode():
     if kw:
         return ["wrapper-mode:" + k for k in kw], dw
     return kh, dh
+
+
+def _run_rebase_i(mode, todo):
+    class S(Script, Hist):
+        pass
+    s = S("d33" + mode, files=2)
+    s.w.destroy()
+    from ..world import World
+    from .. import notes as N
+    s.w = World(name="wd33", mode=mode)
+    s.nr = N.NotesReader(s.w)
+    try:
+        f0 = [s.line("human") for _ in range(5)]; g0 = [s.line("human") for _ in range(4)]
+        s.human_write("f.txt", f0); s.human_write("g.txt", g0); s.commit_all("init")
+        s.g("checkout", "-q", "-b", "feat")
+        s.ai_write("S1", "f.txt", [s.line("S1"), s.line("S1")] + f0); s.commit_all("feat0")
+        s.ai_write("S2", "g.txt", g0[:1] + [s.line("S2")] + g0[1:]); s.commit_all("feat1")
+        s.g("checkout", "-q", "main")
+        s.human_write("up.txt", [s.line("human")]); s.commit_all("upstream")
+        s.g("checkout", "-q", "feat")
+        seq = s.make_seq_editor(todo)
+        s.g("rebase", "-i", "main", env={"GIT_SEQUENCE_EDITOR": seq})
+        s.g("checkout", "-q", "main"); s.g("merge", "-q", "--ff-only", "feat")
+        s.commit_all("final")
+        s.check_notes("w")
+        s.check_blame_tip("w", rule="C13")
+        return s.kinds()
+    finally:
+        s.destroy()
+
+
+def interactive_rebase_reorder_in_hooks_mode():
+    """D33: `git rebase -i` that reorders two AI commits (different files): attribution kept in wrapper mode, lost in hooks mode."""
+    kw, dw = _run_rebase_i("wrapper", "reorder")
+    kh, dh = _run_rebase_i("hooks", "reorder")
+    if kw:
+        return ["wrapper-mode:" + k for k in kw], dw
+    return kh, dh
